@@ -75,10 +75,14 @@ def build_tc(desc):
     m = _env.alias
     lines = []
     n = 0
+    results = []
     for call in desc["calls"]:
         fn, args = call[0], call[1:]
         names = []
         for a in args:
+            if isinstance(a, list) and a and a[0] == "ref":
+                names.append(results[a[1]])  # the value an earlier call of this test case returned
+                continue
             v = f"var_{n}"
             n += 1
             lines.append((f"{v} = {a!r}", v, type(a)))
@@ -86,6 +90,7 @@ def build_tc(desc):
         v = f"var_{n}"
         n += 1
         lines.append((f"{v} = {m}.{fn}({', '.join(names)})", v, None))
+        results.append(v)
     return testcase(lines)
 
 
@@ -95,7 +100,7 @@ def desc_key(desc) -> str:
 
 def gen_desc(rng) -> dict:
     kind = rng.choice(["spin_inf", "helper_spin", "nap", "nap_work", "helper_nap", "term", "term", "term",
-                       "mixed", "long_finite"])
+                       "mixed", "long_finite", "stubborn", "chained"])
     durations = [0.2, 0.7, 1.5, 2.5, 3.5, 6.0, 9.0, 30.0]
     if kind == "spin_inf":
         calls = [["spin", -1]]
@@ -112,6 +117,14 @@ def gen_desc(rng) -> dict:
         return {"kind": kind, "calls": [["helper_nap_then_branch", rng.choice(durations), rng.choice([7, 3, 500])]]}
     if kind == "long_finite":
         return {"kind": kind, "calls": [["long_finite", rng.choice([5, 40, 200])]]}
+    if kind == "stubborn":
+        # blocks past bound+grace and swallows the abort when it wakes: its statement completes long after the
+        # executor gave up on it
+        return {"kind": kind, "calls": [["stubborn_nap", rng.choice([0.2, 2.5, 6.0, 9.0, 30.0]), rng.randrange(0, 6)]]}
+    if kind == "chained":
+        # later statements read the variables bound by earlier ones (var_1 = f(var_0) style)
+        return {"kind": kind, "calls": [["spin", rng.randrange(0, 6)], ["use_twice", ["ref", 0]],
+                                        ["branchy", ["ref", 0], rng.randrange(0, 6)], ["classify", ["ref", 1]]]}
     term = [
         lambda: ["branchy", rng.randrange(-3, 9), rng.randrange(-3, 9)],
         lambda: ["classify", rng.choice(["", "apple", "bananas", "kiwi"])],
@@ -239,8 +252,8 @@ def run_case(case: dict) -> dict:
                     if sig["timeout"] and not ref["timeout"]:
                         # legal when it needed more simulated time than the bound; count when it did not
                         need = sum(c[1] for c in d["calls"] if c[0] in ("nap", "nap_then_work",
-                                                                       "helper_nap_then_branch"))
-                        if need < bound * 0.5 and d["kind"] != "long_finite":
+                                                                       "helper_nap_then_branch", "stubborn_nap"))
+                        if need < bound * 0.5 and d["kind"] not in ("long_finite", "stubborn"):
                             probes["spurious_timeout"] += 1
                 probes["abandoned_threads"] += sch.mark_abandoned()
         finally:
